@@ -177,13 +177,19 @@ class ComputeChi2(NumericJob):
             sq[np.array([rng.random() < rng.choice([0.0, 0.3]) for _ in range(N)])] = 0.0
             if (sq > 0).sum() < M + 1 or np.linalg.cond(A * sq[:, None]) > 1e4:
                 continue
-            yield dict(A=A, b=b, sq=sq, inp=dict(rep=rep, N=N, M=M, zero_weights=int((sq == 0).sum())))
+            order = ["acoeff", "chi2", "yfit", "dof", "covar", "var"]
+            rng.shuffle(order)          # the attributes are lazy: every order of first access must give the same answers
+            yield dict(A=A, b=b, sq=sq, order=order, inp=dict(rep=rep, N=N, M=M, zero_weights=int((sq == 0).sum()), access_order=order))
             rep += 1
 
     def _check(self, c):
         from pydl.pydlutils.math import computechi2
         A, b, sq = c["A"], c["b"], c["sq"]
-        r = computechi2(b.copy(), sq.copy(), A.copy())
+        obj = computechi2(b.copy(), sq.copy(), A.copy())
+        vals = {}
+        for nm in c["order"]:
+            vals[nm] = np.array(getattr(obj, nm), copy=True)
+        r = type("R", (), vals)
         N, M = A.shape
         bad = []
         ref = np.linalg.lstsq(A * sq[:, None], b * sq, rcond=None)[0]
